@@ -10,6 +10,32 @@ fn strs(v: &Value) -> Vec<String> {
     v.as_array().unwrap().iter().map(|x| x.as_str().unwrap().to_string()).collect()
 }
 
+thread_local! {
+    /// appender names and logger names are separate namespaces (ConfigBuild.tla keeps them apart by construction);
+    /// when set, the appender namespace is renamed so that its names are exactly the strings logger names are made of
+    static COLLIDE: std::cell::Cell<bool> = std::cell::Cell::new(false);
+}
+fn app_name(n: &str) -> String {
+    if !COLLIDE.with(|c| c.get()) {
+        return n.to_string();
+    }
+    match n {
+        "A" => "a",
+        "B" => "a::b",
+        "C" => "b",
+        "Z" => "a:b",
+        "Y" => "a::",
+        "X" => "::a",
+        "W" => "a::::b",
+        other => other,
+    }
+    .to_string()
+}
+/// names of the appender namespace (declarations and references)
+fn app_strs(v: &Value) -> Vec<String> {
+    strs(v).iter().map(|n| app_name(n)).collect()
+}
+
 /// Splits `items` into the runs a style hands over together: a run of one item goes through the single-item
 /// method, longer runs through the bulk method (ConfigBuild.tla: the sequence of declarations is the input, how it is
 /// handed to the builder is not).
@@ -35,7 +61,7 @@ fn runs<T>(items: Vec<T>, style: usize) -> Vec<Vec<T>> {
 
 fn builder(case: &Value, style: usize) -> (log4rs::config::runtime::ConfigBuilder, log4rs::config::Root) {
     let mut b = log4rs::Config::builder();
-    let apps: Vec<log4rs::config::Appender> = strs(&case["apps"])
+    let apps: Vec<log4rs::config::Appender> = app_strs(&case["apps"])
         .into_iter()
         .map(|a| log4rs::config::Appender::builder().build(a, Box::new(CountingAppender(Arc::new(Counter::default())))))
         .collect();
@@ -49,7 +75,7 @@ fn builder(case: &Value, style: usize) -> (log4rs::config::runtime::ConfigBuilde
         .enumerate()
         .map(|(li, l)| {
             let mut lb = log4rs::config::Logger::builder();
-            for mut run in runs(strs(&l["refs"]), style / 5 + li) {
+            for mut run in runs(app_strs(&l["refs"]), style / 5 + li) {
                 lb = if run.len() == 1 { lb.appender(run.pop().unwrap()) } else { lb.appenders(run) };
             }
             lb.build(l["name"].as_str().unwrap(), log::LevelFilter::Info)
@@ -59,7 +85,7 @@ fn builder(case: &Value, style: usize) -> (log4rs::config::runtime::ConfigBuilde
         b = if run.len() == 1 { b.logger(run.pop().unwrap()) } else { b.loggers(run) };
     }
     let mut rb = log4rs::config::Root::builder();
-    for mut run in runs(strs(&case["root"]), style / 25 + style) {
+    for mut run in runs(app_strs(&case["root"]), style / 25 + style) {
         rb = if run.len() == 1 { rb.appender(run.pop().unwrap()) } else { rb.appenders(run) };
     }
     (b, rb.build(log::LevelFilter::Info))
@@ -81,7 +107,12 @@ fn pair_set(v: &Value) -> BTreeSet<(String, String)> {
     v.as_array()
         .unwrap()
         .iter()
-        .map(|p| (p[0].as_str().unwrap().to_string(), p[1].as_str().unwrap().to_string()))
+        .map(|p| {
+            let kind = p[0].as_str().unwrap().to_string();
+            let name = p[1].as_str().unwrap();
+            let name = if kind.ends_with("Appender") || kind.ends_with("AppenderName") { app_name(name) } else { name.to_string() };
+            (kind, name)
+        })
         .collect()
 }
 
@@ -100,6 +131,7 @@ fn check_errs(got: &BTreeSet<(String, String)>, case: &Value, which: &str) -> Op
 }
 
 fn check_case(ci: usize, case: &Value) -> Option<Value> {
+    COLLIDE.with(|c| c.set((ci / 3) % 2 == 1));
     // lossy
     let (b, root) = builder(case, ci);
     let (cfg, errs) = match catch(|| b.build_lossy(root)) {
@@ -110,14 +142,15 @@ fn check_case(ci: usize, case: &Value) -> Option<Value> {
         return Some(m);
     }
     let got_apps: Vec<String> = cfg.appenders().iter().map(|a| a.name().to_string()).collect();
-    if got_apps != strs(&case["ok_apps"]) {
+    if got_apps != app_strs(&case["ok_apps"]) {
         return Some(json!({"what": "lossy appenders", "expected": case["ok_apps"], "actual": got_apps}));
     }
-    if cfg.root().appenders() != strs(&case["ok_root"]).as_slice() {
+    if cfg.root().appenders() != app_strs(&case["ok_root"]).as_slice() {
         return Some(json!({"what": "lossy root references", "expected": case["ok_root"], "actual": cfg.root().appenders()}));
     }
     let got_l: Vec<Value> = cfg.loggers().iter().map(|l| json!({"name": l.name(), "refs": l.appenders()})).collect();
-    if Value::Array(got_l.clone()) != case["ok_loggers"] {
+    let want_l: Vec<Value> = case["ok_loggers"].as_array().unwrap().iter().map(|l| json!({"name": l["name"], "refs": app_strs(&l["refs"])})).collect();
+    if got_l != want_l {
         return Some(json!({"what": "lossy loggers", "expected": case["ok_loggers"], "actual": got_l}));
     }
     // the accepted configuration can be installed and logged through
